@@ -989,12 +989,10 @@ class PyEval(MiniEval):
         params = [a.arg for a in f.node.args.posonlyargs + f.node.args.args]
         defaults = f.node.args.defaults
         new: dict = {k: v for k, v in env.items() if callable(v) or k.startswith("__hook")}
-        vals = [self.ev(a, env) for a in node.args]
+        vals = self._positional(node, env)
         for p, v in zip(params, vals):
             new[p] = v
-        for kw in node.keywords:
-            if kw.arg:
-                new[kw.arg] = self.ev(kw.value, env)
+        self._bind_rest(f, params, vals, node, env, new)
         for p, d in zip(params[len(params) - len(defaults):], defaults):
             if p not in new:
                 new[p] = self.ev(d, {})
@@ -1010,6 +1008,44 @@ class PyEval(MiniEval):
             return list(new.get("__yields__", []))
         return out[1] if out[0] == "return" else None
 
+    def _positional(self, node: ast.Call, env: dict) -> list:
+        vals: list = []
+        for a in node.args:
+            if isinstance(a, ast.Starred):
+                sv = self.ordered(self.ev(a.value, env))
+                if not isinstance(sv, (list, tuple)):
+                    raise Unsupported(f"splat of {sv!r}")
+                vals.extend(sv)
+            else:
+                vals.append(self.ev(a, env))
+        return vals
+
+    def _bind_rest(self, f: FuncInfo, names: list, vals: list, node: ast.Call, env: dict, new: dict) -> None:
+        """Keyword arguments, keyword-only parameters with defaults, `*args` and `**kwargs` of a followed call."""
+        a = f.node.args
+        named = set(names) | {k.arg for k in a.kwonlyargs}
+        extra_kw: dict = {}
+        for kw in node.keywords:
+            if kw.arg is None:
+                d = self.ev(kw.value, env)
+                if not isinstance(d, dict):
+                    raise Unsupported(f"**{d!r} in a call")
+                items = d.items()
+            else:
+                items = [(kw.arg, self.ev(kw.value, env))]
+            for k, v in items:
+                if k in named or a.kwarg is None:
+                    new[k] = v
+                else:
+                    extra_kw[k] = v
+        if a.kwarg is not None:
+            new[a.kwarg.arg] = extra_kw
+        if a.vararg is not None:
+            new[a.vararg.arg] = tuple(vals[len(names):])
+        for k, d in zip(a.kwonlyargs, a.kw_defaults):
+            if k.arg not in new and d is not None:
+                new[k.arg] = self.ev(d, {})
+
     def call_method(self, f: FuncInfo, recv: Any, node: ast.Call, env: dict) -> Any:
         """Interpret a repository method with `self` bound to a token."""
         if self.depth >= self.max_depth:
@@ -1017,15 +1053,13 @@ class PyEval(MiniEval):
         params = [a.arg for a in f.node.args.posonlyargs + f.node.args.args]
         static = "staticmethod" in f.decorator_names()
         new: dict = {k: v for k, v in env.items() if callable(v)}
-        vals = [self.ev(a, env) for a in node.args]
+        vals = self._positional(node, env)
         names = params if static else params[1:]
         if not static and params:
             new[params[0]] = recv
         for p, v in zip(names, vals):
             new[p] = v
-        for kw in node.keywords:
-            if kw.arg:
-                new[kw.arg] = self.ev(kw.value, env)
+        self._bind_rest(f, names, vals, node, env, new)
         defaults = f.node.args.defaults
         for p, d in zip(params[len(params) - len(defaults):], defaults):
             if p not in new:
